@@ -20,6 +20,9 @@
 (*                                             only the stub defines and all Generic[..] bases    *)
 (*                                             are removed                                       *)
 (*   existing-dropped / existing-changed       an annotation of the original is gone / differs  *)
+(*                                             (whatever it says: the author's own `-> Any`,     *)
+(*                                             `v: Never = e` or value-less `v: Any` count; a      *)
+(*                                             deleted declaration is a dropped "decl" site)      *)
 (*   inserted-not-from-stub                    a new annotation is not the stub's type for that *)
 (*                                             definition                                       *)
 (*   stray-class-target-at-module-level        the same, attributed: a module-level declaration *)
@@ -50,6 +53,8 @@ StubAt(c, q) == IF q = "" THEN {} ELSE {s \in ToSet(c.stub) : s.q = q}
 StubTexts(c, s) == {x.u : x \in StubAt(c, s.q) \cup StubAt(c, s.q2)}
 Inserted(c) == {s \in ToSet(c.out) : s.id \notin Ids(c.orig)}
 IsVar(s) == s.k \in {"var", "decl"}
+(* an existing annotation, for the report: "<id> <definition>: <text as written>" *)
+Show(s) == s.id \o " " \o s.q \o ": " \o s.a
 
 (* the stray declaration pattern *)
 IsStray(c, s) ==
@@ -86,8 +91,8 @@ Fails(c) ==
                ELSE {<<"tree-changed", "">>}
         ELSE {})
   \cup (IF c.err = "" /\ c.compiles
-        THEN {<<"existing-dropped", id>> : id \in Ids(c.orig) \ Ids(c.out)}
-             \cup {<<"existing-changed", id>> :
+        THEN {<<"existing-dropped", Show(SiteOf(c.orig, id))>> : id \in Ids(c.orig) \ Ids(c.out)}
+             \cup {<<"existing-changed", Show(SiteOf(c.orig, id)) \o " became " \o SiteOf(c.out, id).a>> :
                      id \in {x \in Ids(c.orig) \cap Ids(c.out) : SiteOf(c.orig, x).a # SiteOf(c.out, x).a}}
              \cup UNION {SiteFails(c, s) : s \in Inserted(c)}
         ELSE {})
